@@ -2,7 +2,7 @@
    Print Assumptions. *)
 From Coq Require Import ZArith NArith List Bool Sorted.
 From Centro Require Import Base.GraphC15 Model.LabelGraph Spec.LabelGraph
-  Proofs.ColorC15 Proofs.DfsC15 Proofs.AccC15 Proofs.EulerC15 Proofs.RelabelC15 Proofs.NeighborsC15 Proofs.EulerQuadC15 Proofs.EulerStepC15 Proofs.AccCertC15 Proofs.SpecC15 Proofs.EulerTopoC15 Spec.EulerReduceC15 Proofs.EulerSearchC15.
+  Proofs.ColorC15 Proofs.DfsC15 Proofs.AccC15 Proofs.EulerC15 Proofs.RelabelC15 Proofs.NeighborsC15 Proofs.EulerQuadC15 Proofs.EulerStepC15 Proofs.AccCertC15 Proofs.SpecC15 Proofs.EulerTopoC15 Spec.EulerMovesC15 Spec.EulerReduceC15 Proofs.EulerSearchC15 Proofs.EulerHoleFreeC15 Proofs.EulerBridgeC15.
 Import ListNotations.
 
 (* ---- all_connected_components / _all_connected_components (Full, including termination) ----
@@ -287,3 +287,39 @@ Theorem C15_small_images_reducible : forall h w im l, im <> [] ->
   length im = h -> exists k, Reduces2 l im k.
 Proof. exact small_images_reducible. Qed.
 Print Assumptions C15_small_images_reducible.
+
+(* ================================================================ round 4 *)
+
+(* C15_euler_holefree (Full, every image size): a label whose pixel set has a 4-connected complement in
+   the plane (no hole) is emptied by deletions of simple pixels and isolated points alone - C05's
+   end-pixel lemma end_pixel_fin is IMPORTED: as long as some pixel has a neighbour there is an end
+   pixel, end patterns are simple (512 sweep), hole-freeness is kept - hence 4 W = 4 * components *)
+Theorem C15_holefree_reducible : forall l : Z, l <> 0 -> forall im, rect im ->
+  EndPixel.hole_free' (X_of im l) -> exists k, Reduces l im k.
+Proof. exact holefree_reducible. Qed.
+Print Assumptions C15_holefree_reducible.
+
+Theorem C15_euler_holefree : forall l : Z, l <> 0 -> forall im, rect im -> EndPixel.hole_free' (X_of im l) ->
+  forall fgl, TopoCheck.comp_reps Topo.adj8 (Topo.fg (X_of im l)) fgl -> euler4 im l = 4 * Z.of_nat (length fgl).
+Proof. exact euler_holefree. Qed.
+Print Assumptions C15_euler_holefree.
+
+(* box / plane bridge (Full): the flood-fill counts of the executable euler_spec (label pixels inside the
+   image, complement inside the image grown by one pixel) equal the plane counts for ANY lists of
+   representatives; such lists exist for every image *)
+Theorem C15_euler_spec_plane : forall (im : image) (l : Z), rect im -> l <> 0 -> forall fgl bgl,
+  TopoCheck.comp_reps Topo.adj8 (Topo.fg (X_of im l)) fgl -> TopoCheck.comp_reps Topo.adj4 (Topo.bg (X_of im l)) bgl ->
+  euler_spec im l = topo_count fgl bgl.
+Proof. exact euler_spec_plane. Qed.
+Print Assumptions C15_euler_spec_plane.
+
+(* the round-2 conditional theorem without its hypotheses: for every image reducible by the four moves,
+   4 W = 4 * (components - holes) with the executable flood-fill definition that the harness also evaluates,
+   and that number is k.  (Images with holes: the dual end-pixel lemma for the 4-connected background
+   component of a hole is not available, so general reducibility of images WITH holes stays certificate
+   based: reduce_label per case, C15_small_images_reducible; the unrestricted statement is _partial only
+   for that reason.) *)
+Theorem C15_euler_is_components_minus_holes_reducible : forall l : Z, l <> 0 -> forall im k, Reduces2 l im k -> rect im ->
+  euler4 im l = 4 * euler_spec im l /\ euler_spec im l = k.
+Proof. exact euler_is_components_minus_holes_reducible. Qed.
+Print Assumptions C15_euler_is_components_minus_holes_reducible.
